@@ -112,6 +112,8 @@ class LegacyWorld:
         self.probes[name] = self.probes.get(name, 0) + n
 
     def violation(self, prop, cls, msg, sig=None):
+        if self.sim.unwinding:
+            return        # library code run while an aborted run is unwound
         self.violations.append([prop, cls, msg, dict(sig or {}, variant='legacy')])
 
     def latency(self, op, m):
